@@ -156,9 +156,10 @@ func writeRecordConverter(td *dsl.RecordDefinition, w *formatting.IndentedWriter
 			for _, f := range td.Fields {
 				fieldId := common.FieldIdentifierName(f.Name)
 				if g, ok := dsl.GetUnderlyingType(f.Type).(*dsl.GeneralizedType); ok && g.Cases.HasNullOption() && g.Dimensionality == nil {
-					fmt.Fprintf(w, "if (field_val := value[\"%s\"]) is not None:\n", fieldId)
+					// in a structured array an optional is a (has_value, value) pair, never None: null shows in the converted value
+					fmt.Fprintf(w, "if (field_json := self._%s_converter.numpy_to_json(value[\"%s\"])) is not None:\n", fieldId, fieldId)
 					w.Indented(func() {
-						fmt.Fprintf(w, "json_object[\"%s\"] = self._%s_converter.numpy_to_json(field_val)\n", f.Name, fieldId)
+						fmt.Fprintf(w, "json_object[\"%s\"] = field_json\n", f.Name)
 					})
 				} else if isGenericParameterReference(f.Type) {
 					fmt.Fprintf(w, "if not self._%s_supports_none or value[\"%s\"] is not None:\n", fieldId, fieldId)
